@@ -525,7 +525,7 @@ pub fn gen_c08(seed: u64, i: u64, thorough: bool) -> Value {
         sqlite: false,
         ts_unit_ms: 0,
         kill_budget: 0,
-        sweep_max: if git { if thorough { 40 } else { 8 } } else { 0 },
+        sweep_max: if git { if thorough { 40 } else { 6 } } else { 0 },
         backend,
     };
     serde_json::to_value(sc).unwrap()
@@ -589,7 +589,7 @@ pub fn gen_c11(seed: u64, i: u64, thorough: bool) -> Value {
         sqlite: false,
         ts_unit_ms: 0,
         kill_budget: 0,
-        sweep_max: if git { if thorough { 40 } else { 8 } } else { 0 },
+        sweep_max: if git { if thorough { 40 } else { 6 } } else { 0 },
         backend,
     };
     serde_json::to_value(sc).unwrap()
